@@ -14,6 +14,8 @@ pub static NALLOC: AtomicUsize = AtomicUsize::new(0);
 pub static LIMIT: AtomicUsize = AtomicUsize::new(usize::MAX);
 static OVERSIZE_DONE: AtomicBool = AtomicBool::new(false);
 pub static SEQ: AtomicUsize = AtomicUsize::new(0);
+/// case index inside a fault batch (-1 outside of batches)
+pub static CASE: AtomicIsize = AtomicIsize::new(-1);
 
 /// Scope guard: allocations made while it is alive are not counted. Whatever is allocated
 /// under a guard must also be freed under a guard.
@@ -64,8 +66,9 @@ fn report_oversize(size: usize) {
     let _g = Excl::new();
     let frames = crate_frames(&std::backtrace::Backtrace::force_capture());
     let mut s = format!(
-        "{{\"seq\":{},\"ev\":\"oversize\",\"bytes\":{},\"frames\":[",
+        "{{\"seq\":{},\"ev\":\"oversize\",\"case\":{},\"bytes\":{},\"frames\":[",
         SEQ.load(Relaxed),
+        CASE.load(Relaxed),
         size
     );
     for (i, (f, l, sym)) in frames.iter().take(6).enumerate() {
@@ -137,10 +140,20 @@ unsafe impl GlobalAlloc for Counting {
 
 pub fn begin_command(seq: usize, limit: usize) {
     SEQ.store(seq, Relaxed);
+    CASE.store(-1, Relaxed);
     LIMIT.store(limit, Relaxed);
     OVERSIZE_DONE.store(false, Relaxed);
     MAXREQ.store(0, Relaxed);
     NALLOC.store(0, Relaxed);
+    PEAK.store(LIVE.load(Relaxed), Relaxed);
+}
+
+/// per-case reset inside a fault batch (keeps the command's sequence number)
+pub fn begin_case(case: usize, limit: usize) {
+    CASE.store(case as isize, Relaxed);
+    LIMIT.store(limit, Relaxed);
+    OVERSIZE_DONE.store(false, Relaxed);
+    MAXREQ.store(0, Relaxed);
     PEAK.store(LIVE.load(Relaxed), Relaxed);
 }
 
